@@ -23,7 +23,7 @@ def run_benign(name):
         subprocess.run(["rm", "-rf", evd])
         oks.append(r.returncode == 0 and "VIOLATION" not in r.stdout)
         if not oks[-1]:
-            info += "%s rc=%d %s | " % (pid, r.returncode, " ".join(l.strip() for l in r.stdout.splitlines() if "violation" in l)[:300])
+            info += "%s rc=%d %s | " % (pid, r.returncode, " ".join(l.strip() for l in r.stdout.splitlines() if "violation" in l or "ERROR" in l or "FAILED" in l)[:400])
     return name, all(oks), 0 if all(oks) else 1, info or ("silent on " + ",".join(props))
 
 
